@@ -90,6 +90,9 @@ func c07Funcs(c *Ctx) []*ssa.Function {
 
 func c07() []*Ob {
 	return []*Ob{
+		{Prop: "C07", ID: "C07.11", Engine: "PAIR(two sites)", Floor: 1,
+			Desc:  "sealing a fraction that retention deleted meanwhile is not a fatal error: wherever package fracmanager tests errors.Is with the sentinel as first argument (which matches the bare sentinel only), every producer of that error returns the sentinel itself, not a wrapped one",
+			Check: func(c *Ctx) { sentinelRecognised(c) }},
 		{Prop: "C07", ID: "C07.10", Engine: "INDEX(guard strictness)", Floor: 30,
 			Desc:  "a length check that guards an element read excludes the length itself: wherever a function of the store-side packages compares an index with len(s) and then reads s[index] on the branch the comparison allows, the comparison implies index < len(s) (a `>` where `>=` is meant lets index == len through) — under concurrent ingest the first LID appended after a reader took its snapshot is exactly len(inversion): the search that should skip it panics with index out of range instead",
 			Check: func(c *Ctx) { guardedIndexStrict(c) }},
